@@ -852,12 +852,13 @@ def c15(ctx):
         ctx.vehicles_skipped.append({"vehicle": "miri-host", "reason": "driver error %r" % (e,)})
     ctx.nontrivial += total_detects
     ctx.assumptions.append("schedules of the real code are sampled (fresh processes, barrier release, 2..32 threads), not exhausted; exhaustiveness over schedules is at model level")
+    extra = tlaps_supplement(ctx, "IfuncUnbounded", ("InitInv", "NextInv", "Safety"))
     return C.finish(ctx, "model_checking",
                     "Ifunc: TLC explores every interleaving of 3 threads x 2 calls (thorough: 2 routines, 4 threads) of the dispatcher with Relaxed loads/stores modelled by per-location "
                     "modification orders and per-thread views, for every CPU-feature outcome; invariants: every return equals the sequential answer, only supported implementations are invoked, "
                     "stores are idempotent; liveness EveryCallReturns under weak fairness. Code: fresh child processes whose threads are released by a barrier make the first calls to all "
                     "seven dispatched routines, then search fresh shared Finder/FinderRev objects and clones of a partially consumed iterator concurrently; every returned value is validated by "
-                    "TLC (Trace_Lib) against the sequential oracle; dispatcher events are checked against the per-thread projection of the spec (conformance); non-trivial = calls that raced through detect")
+                    "TLC (Trace_Lib) against the sequential oracle; dispatcher events are checked against the per-thread projection of the spec (conformance); non-trivial = calls that raced through detect", extra_cov=extra)
 
 
 def c09(ctx):
